@@ -26,11 +26,11 @@ CONSTANTS Keys,       \* key names
           BS, MS, Rate,
           Counting,   \* BOOLEAN: counting cuckoo filter
           Cap0s, Autos,
-          MaxCap, MaxDepth, MaxOut,
+          MaxCap, MaxDepth, MaxOut, MaxReloads,
           NPARTS, PART
 
-VARIABLES cap, tbl, n, uniq, out, alt, auto, c0, hist, last
-vars == <<cap, tbl, n, uniq, out, alt, auto, c0, hist, last>>
+VARIABLES cap, tbl, n, uniq, out, alt, auto, c0, rl, hist, last
+vars == <<cap, tbl, n, uniq, out, alt, auto, c0, rl, hist, last>>
 
 NoE == <<>>
 Fp(k) == IF FpRaw[k] = 0 THEN 1 ELSE FpRaw[k]
@@ -119,6 +119,7 @@ StepSet(st, a, o) ==
   CASE o[1] = "add" -> AddSet(st, a, o[2])
     [] o[1] = "rem" -> RemSet(st, o[2])
     [] o[1] = "exp" -> ExpSet(st)
+    [] o[1] = "rt" -> {[st |-> st, err |-> FALSE, ch |-> <<>>, ret |-> 0]}     \* export + load: identity on the table
 
 (* the history oracle: outstanding additions per fingerprint, from the operations and their outcome only *)
 OutStep(ou, o, err, ret) ==
@@ -127,7 +128,7 @@ OutStep(ou, o, err, ret) ==
          [] o[1] = "rem" -> [ou EXCEPT ![Fp(o[2])] = IF @ = 0 THEN 0 ELSE IF Counting THEN @ - 1 ELSE 0]
          [] OTHER -> ou
 
-Ops == {<<"add", k>> : k \in Keys} \cup {<<"rem", k>> : k \in Keys} \cup {<<"exp", "">>}
+Ops == {<<"add", k>> : k \in Keys} \cup {<<"rem", k>> : k \in Keys} \cup {<<"exp", "">>} \cup {<<"rt", "bytes">>, <<"rt", "file">>}
 
 -----------------------------------------------------------------------------
 RECURSIVE TableNo(_, _)
@@ -139,12 +140,14 @@ Init == /\ alt \in [FPs -> AltVals]
         /\ (NPARTS > 1 => TableNo(alt, FPs) % NPARTS = PART)
         /\ cap \in Cap0s /\ auto \in Autos
         /\ tbl = [i \in 1..cap |-> <<>>]
-        /\ n = 0 /\ uniq = 0
+        /\ n = 0 /\ uniq = 0 /\ rl = 0
         /\ out = [f \in FPs |-> 0]
         /\ c0 = [cap |-> cap, auto |-> auto, alt |-> alt]
         /\ hist = <<>> /\ last = [o |-> <<"init", "">>, ch |-> <<>>, err |-> FALSE, ret |-> 0]
 
-Do(o) == \E r \in StepSet(St(cap, tbl, n, uniq), auto, o) :
+Do(o) == /\ (o[1] = "rt" => rl < MaxReloads)
+         /\ rl' = IF o[1] = "rt" THEN rl + 1 ELSE rl        \* part of the state: histories continue on the restored filter
+         /\ \E r \in StepSet(St(cap, tbl, n, uniq), auto, o) :
            /\ cap' = r.st.cap /\ tbl' = r.st.tbl /\ n' = r.st.n /\ uniq' = r.st.uniq
            /\ out' = OutStep(out, o, r.err, r.ret)
            /\ last' = [o |-> o, ch |-> r.ch, err |-> r.err, ret |-> r.ret]
@@ -153,7 +156,7 @@ Do(o) == \E r \in StepSet(St(cap, tbl, n, uniq), auto, o) :
 
 Next == \E o \in Ops : Do(o)
 Spec == Init /\ [][Next]_vars
-View == <<cap, tbl, n, uniq, out, alt, auto>>
+View == <<cap, tbl, n, uniq, out, alt, auto, rl>>
 Bound == cap <= MaxCap /\ Len(hist) <= MaxDepth /\ \A f \in FPs : out[f] <= MaxOut
 
 -----------------------------------------------------------------------------
